@@ -150,6 +150,7 @@ def dispatch (op : String) (args : List Sexp) : String :=
   | "lef.lex" => opLefLex args
   | "lef.enum" => opLefEnum args
   | "lef.dbu" => opLefDbu args
+  | "lef.parse" => LefP.opLefParse args
   | "lef.read" => "unsupported"
   | "lef.wr" => "unsupported"
   | "lef.crash" => "unsupported"
